@@ -1693,15 +1693,41 @@ func (r *Regex) MatchReader(reader io.RuneReader) bool {
 // A return value of nil indicates no match.
 func (r *Regex) FindReaderIndex(reader io.RuneReader) []int {
 	// Read all runes into a string and find
-	var runes []rune
+	text, offs := readAllRunes(reader)
+	return toStreamOffsets(r.FindStringIndex(text), offs)
+}
+
+// readAllRunes drains reader and returns its text re-encoded as UTF-8, plus a
+// table mapping each rune-boundary byte offset of that text to the byte offset
+// in the reader's stream. The two differ whenever ReadRune reports a size other
+// than the encoded width of the rune (U+FFFD with size 1 for an ill-formed byte).
+func readAllRunes(reader io.RuneReader) (text string, offs []int) {
+	var buf strings.Builder
+	offs = []int{0}
+	pos := 0
 	for {
-		rn, _, err := reader.ReadRune()
+		rn, size, err := reader.ReadRune()
 		if err != nil {
 			break
 		}
-		runes = append(runes, rn)
+		buf.WriteRune(rn)
+		pos += size
+		for len(offs) <= buf.Len() {
+			offs = append(offs, pos)
+		}
 	}
-	return r.FindStringIndex(string(runes))
+	return buf.String(), offs
+}
+
+// toStreamOffsets rewrites, in place, the match offsets in loc (-1 = no match)
+// using the table built by readAllRunes.
+func toStreamOffsets(loc []int, offs []int) []int {
+	for i, off := range loc {
+		if off >= 0 {
+			loc[i] = offs[off]
+		}
+	}
+	return loc
 }
 
 // FindReaderSubmatchIndex returns a slice holding the index pairs
@@ -1712,15 +1738,8 @@ func (r *Regex) FindReaderIndex(reader io.RuneReader) []int {
 // A return value of nil indicates no match.
 func (r *Regex) FindReaderSubmatchIndex(reader io.RuneReader) []int {
 	// Read all runes into a string and find
-	var runes []rune
-	for {
-		rn, _, err := reader.ReadRune()
-		if err != nil {
-			break
-		}
-		runes = append(runes, rn)
-	}
-	return r.FindStringSubmatchIndex(string(runes))
+	text, offs := readAllRunes(reader)
+	return toStreamOffsets(r.FindStringSubmatchIndex(text), offs)
 }
 
 // MatchReader reports whether the text returned by the RuneReader
